@@ -1,7 +1,7 @@
 #!/bin/bash
 # tools/confirm_seed.sh <seed-dir with patch.diff demo.cpp> [more seed dirs...]
 # Confirms in a scratch worktree: demo passes clean / fails patched; library test suite (182 stable tests) passes with the patch.
-WT=/tmp/wt_confirm
+WT=${WT:-/tmp/wt_confirm}
 git -C /repo worktree remove --force $WT 2>/dev/null
 git -C /repo worktree add -q --detach $WT HEAD || exit 2
 cmake -G Ninja -S $WT -B $WT/_b -DCMAKE_BUILD_TYPE=RelWithDebInfo -DQUILL_BUILD_TESTS=ON -DQUILL_ENABLE_EXTENSIVE_TESTS=ON > /dev/null
@@ -11,9 +11,9 @@ for d in "$@"; do
   FL=$(grep -o '"demo_flags"[^,]*' $d/meta.json 2>/dev/null | sed 's/.*: *"//; s/"$//')
   EXTRA="-fno-access-control"
   grep -q "fsanitize=thread" $d/meta.json 2>/dev/null && EXTRA="$EXTRA -fsanitize=thread -g"
-  ( cd $d && g++ -std=c++17 -O1 $EXTRA -I$WT/include demo.cpp -o /tmp/demo_clean -lpthread 2>>$out && (timeout 300 /tmp/demo_clean >/tmp/demo_clean.out 2>&1; echo "demo clean rc=$?" >> $out) )
+  ( cd $d && g++ -std=c++17 -O1 $EXTRA -I$WT/include demo.cpp -o /tmp/demo_clean_$$ -lpthread 2>>$out && (timeout 300 /tmp/demo_clean_$$ >/tmp/demo_clean_$$.out 2>&1; echo "demo clean rc=$?" >> $out) )
   git -C $WT apply $d/patch.diff || { echo "patch does not apply" >> $out; continue; }
-  ( cd $d && g++ -std=c++17 -O1 $EXTRA -I$WT/include demo.cpp -o /tmp/demo_patched -lpthread 2>>$out && (timeout 300 /tmp/demo_patched >/tmp/demo_patched.out 2>&1; echo "demo patched rc=$?" >> $out) )
+  ( cd $d && g++ -std=c++17 -O1 $EXTRA -I$WT/include demo.cpp -o /tmp/demo_patched_$$ -lpthread 2>>$out && (timeout 300 /tmp/demo_patched_$$ >/tmp/demo_patched_$$.out 2>&1; echo "demo patched rc=$?" >> $out) )
   cmake --build $WT/_b -j${J:-8} > $d/confirm_build.log 2>&1; echo "build rc=$?" >> $out
   ctest --test-dir $WT/_b -j6 --timeout 900 -E unbounded_unlimited_queue > $d/confirm_ctest.log 2>&1; echo "ctest rc=$?" >> $out
   grep -E "tests passed|tests failed" $d/confirm_ctest.log >> $out
@@ -21,4 +21,4 @@ for d in "$@"; do
   echo "== $d"; cat $out
 done
 git -C /repo worktree remove --force $WT
-rm -f /tmp/demo_clean /tmp/demo_patched
+rm -f /tmp/demo_clean_$$ /tmp/demo_patched_$$
